@@ -103,6 +103,12 @@ BIN_KINDS = ("add", "replace", "update", "extend", "extend_new", "extend_matrix"
 ROWOPS = {"remove": "remove_sequences", "discard": "discard_sequences", "keep": "keep_sequences"}
 
 
+# bounds: depth[data type][taxa-1] = history length; max_columns = widest row of a state / predicted result;
+# concat_list_len_* = E1 lists over the pool (full pool / SUBPOOL+foreign); concat_with_current_len = lists that
+# contain the current matrix (length 3 only in states of depth <= concat_with_current_len3_depth);
+# self_extension_depth / name_collision_depth(_lists_of_3) = deepest state in which the two input classes that
+# currently never terminate (m.extend_*(m); concatenate with colliding subset names) are enumerated - each costs
+# a full line budget (~0.14 s)
 def bounds(tier):
     if tier == "quick":
         return {"depth": {"dna": [3, 3, 2], "standard": [3, 3, 2], "continuous": [3, 3, 2]},
@@ -117,7 +123,7 @@ def bounds(tier):
             "concat_list_len_full_pool": 3, "concat_list_len_subpool": 3, "concat_with_current_len": 3,
             "concat_with_current_len3_depth": 1,
             "max_columns": 7, "all_index_subsets_up_to_columns": 5,
-                "self_extension_depth": 1, "name_collision_depth": 1, "name_collision_depth_lists_of_3": 0,
+            "self_extension_depth": 1, "name_collision_depth": 1, "name_collision_depth_lists_of_3": 0,
             "line_budget": LINE_BUDGET, "chunk_states": 24}
 
 
